@@ -59,6 +59,7 @@ func cmdVerify(args []string) {
 	gen := fs.Bool("gen", false, "generate only")
 	dump := fs.String("dump", "", "dump the query of the obligation with this id")
 	showModel := fs.Bool("m", false, "print solver models of failed obligations")
+	dumpPruned := fs.Bool("pruned", false, "with -dump: dump the pruned query")
 	fs.Parse(args)
 	w, err := vc.Load(*repo)
 	if err != nil {
@@ -91,7 +92,11 @@ func cmdVerify(args []string) {
 		if *dump != "" {
 			for _, o := range r.Ctx.Obls {
 				if o.ID() == *dump {
-					fmt.Print(o.Query(false, true))
+					if *dumpPruned {
+						fmt.Print(o.QueryPruned(false))
+					} else {
+						fmt.Print(o.Query(false, true))
+					}
 				}
 			}
 			continue
